@@ -128,6 +128,8 @@ package parse
 //@   requires len(q) > 0
 //@   ensures 0 <= n <= len(q) && n <= 4
 //@   ensures q[0] == ' ' ==> n == 1
+//@   ensures q[0] != ' ' && unicode.IsSpace(srune(q, 0)) ==> n == srunelen(q, 0) && n >= 1
+//@   ensures q[0] != ' ' && !unicode.IsSpace(srune(q, 0)) ==> n == 0
 
 //@ func (t *tokenizer) tok(kind byte, token string, rest string) (k tok, n tokenizer)
 //@   props C07
